@@ -526,7 +526,7 @@ Theorem raw_set_bit_ok r i b :
              abs_raw r' = takeN i (abs_raw r) ++ [b] ++ dropN (i + 1) (abs_raw r).
 Proof.
   intros Hinv Hi. pose proof Hinv as (Hl & Hwf & Hz). pose proof Hl as Hl'. rewrite bits_to_words_eq in Hl'.
-  unfold raw_set_bit. replace (i <? rlen r) with true by lia. cbn [negb]. rewrite split_offset_spec.
+  unfold raw_set_bit. replace (i <? rlen r) with true by lia. unfold raw_set_bit_body. rewrite split_offset_spec.
   assert (Hidx : i / 64 < lenN (rdata r)) by lia.
   rewrite idx_getw by assumption. cbn [bind]. rewrite upd_ok by assumption. cbn [bind].
   pose proof (getw_lt (rdata r) (i / 64) Hwf) as Hg.
